@@ -88,3 +88,11 @@ Definition g_find_network_freq_range (amp_bands : list band) : res (Q * Q) :=
   | x :: xs, y :: ys => Ok (fold_left qmin xs x, fold_left qmax ys y)
   | _, _ => Err "ValueError"
   end.
+
+(* gnpy/topology/spectrum_assignment.py: build_oms_list, one step of the walk: next(n[1] for n in network.edges([nd_out]) if <filter>)
+   (the statements around it - add_element, nd_out.oms_id = oms_id, nd_out.oms = oms, unconditionally - are matched) *)
+Definition g_walk_next (nd_in nd_out : Z) (succs : list Z) : res Z :=
+  match filter (fun s => (negb (s =? nd_in))) succs with
+  | [] => Err "StopIteration"
+  | nx :: _ => Ok nx
+  end.
